@@ -47,7 +47,7 @@ class Prop(core.Prop):
                 'x': [1, 2, 3, 4],
                 'kinds': [['A', 'M', 'B', 'X', 'Zx', 'S'], ['A', 'M', 'B', 'Zx', 'S', 'M0', 'Ch', 'Mn', 'Sw']] +
                          ([['A', 'M', 'B', 'X', 'Zx', 'S', 'Ch', 'M0']] if th else []),
-                'forms': ['method', 'stack_files', 'pncmfopen', 'method-disk'],
+                'forms': ['method', 'stack_files', 'pncmfopen', 'method-disk', 'method-iter', 'method-tuple'],
                 'multi': 'ordered pairs and triples%s of offset copies with lengths 1..%d along the stack dimension'
                          % (' and quadruples' if th else '', 3 if th else 2),
                 'multi_lens': [1, 2, 3] if th else [1, 2],
@@ -115,8 +115,9 @@ class Prop(core.Prop):
             n = group['file']['lens'][group['dim']]
             for comp in rops.compositions(n):
                 for splitter in ('ref', 'lib'):
+                    # (method-iter / method-tuple: the other files handed over as a one-shot iterator / a tuple)
                     forms = ['method'] if splitter == 'lib' else ['method', 'stack_files', 'pncmfopen',
-                                                                   'method-disk']
+                                                                   'method-disk', 'method-iter', 'method-tuple']
                     for form in forms:
                         yield {'kind': 'split', 'file': group['file'], 'dim': group['dim'],
                                'pieces': [list(p) for p in comp], 'splitter': splitter, 'form': form}
@@ -130,7 +131,7 @@ class Prop(core.Prop):
         else:
             dl = group['dlens']
             for k in range(2, len(dl) + 1):
-                for form in ('method', 'stack_files'):
+                for form in ('method', 'stack_files', 'method-iter'):
                     yield dict(group, dlens=dl[:k], form=form)
             # same lengths, reversed offsets: argument order must be visible
             yield dict(group, dlens=dl[:2], form='method', reverse=True)
@@ -149,6 +150,10 @@ class Prop(core.Prop):
         P = lib.pnc()
         if form == 'method':
             return self._call(reals[0].stack, reals[1:], d)
+        if form == 'method-iter':
+            return reals[0].stack(iter(reals[1:]), d) if len(reals) > 2 else reals[0].stack((r for r in reals[1:]), d)
+        if form == 'method-tuple':
+            return reals[0].stack(tuple(reals[1:]), d)
         if form == 'method-disk':
             # the pieces are netCDF-backed files; the receiver is an in-memory copy of the first
             disk = []
